@@ -149,3 +149,69 @@ Proof.
   { apply existsb_exists. exists (c, tr). split; [exact Himp|]. cbn. now rewrite !String.eqb_refl. }
   congruence.
 Qed.
+
+(* ---------------------------------------------------------------- a key never crosses threads, however it is wrapped *)
+Definition is_param_send (b : bound) : bool := match b with BParam MSend => true | _ => false end.
+
+(* a type constructor that can be Send only if its argument is: no rule, a negative rule, or a rule demanding it *)
+Definition send_needs_arg (rules : list autorule) (c : string) : bool :=
+  match find_rule rules c MSend with
+  | None => true
+  | Some r => r_negative r || existsb is_param_send (r_bounds r)
+  end.
+
+Section KeyNeverSent.
+  Variable rules : list autorule.
+  Variable holders : list string.
+
+  (* values of these types own a ThreadKey: a key holder applied to anything; `&mut` of, a tuple / array / Vec / Box
+     containing, and any constructor that owns its argument applied to such a type *)
+  Inductive owns_key : ty -> Prop :=
+  | ok_holder c t : In c holders -> owns_key (TCon c t)
+  | ok_mut t : owns_key t -> owns_key (TMutRef t)
+  | ok_tuple ts t : In t ts -> owns_key t -> owns_key (TTuple ts)
+  | ok_wrap c t : send_needs_arg rules c = true -> owns_key t -> owns_key (TCon c t).
+
+  Lemma all_flags_complete rf : In rf all_flags.
+  Proof. destruct rf as [[|] [|] [|] [|]]; vm_compute; tauto. Qed.
+
+  (* the most permissive argument: a payload that is Send and Sync *)
+  Lemma impl_auto_best rf m c t :
+    impl_auto rules rf m (TCon c t) = true -> impl_auto rules rf m (TCon c (TPay true true)) = true.
+  Proof.
+    cbn [impl_auto]. destruct (find_rule rules c m) as [r|]; [|discriminate].
+    intros H. apply andb_true_iff in H. destruct H as [N B]. rewrite N. cbn [andb].
+    apply forallb_forall. intros b Hb. rewrite forallb_forall in B. specialize (B b Hb).
+    destruct b as [m'| | |]; try exact B. destruct m'; reflexivity.
+  Qed.
+
+  Hypothesis holders_not_send :
+    forallb (fun c => negb (existsb (fun rf => impl_auto rules rf MSend (TCon c (TPay true true))) all_flags)) holders = true.
+
+  Theorem key_never_sent rf t : owns_key t -> impl_auto rules rf MSend t = false.
+  Proof.
+    induction 1 as [c t Hin|t _ IH|ts t Hin _ IH|c t Hw _ IH].
+    - destruct (impl_auto rules rf MSend (TCon c t)) eqn:E; [|reflexivity]. exfalso.
+      apply impl_auto_best in E. rewrite forallb_forall in holders_not_send. specialize (holders_not_send c Hin).
+      apply negb_true_iff in holders_not_send.
+      assert (X : existsb (fun rf0 => impl_auto rules rf0 MSend (TCon c (TPay true true))) all_flags = true).
+      { apply existsb_exists. exists rf. split; [apply all_flags_complete|exact E]. }
+      congruence.
+    - cbn [impl_auto]. exact IH.
+    - cbn [impl_auto]. destruct (forallb (impl_auto rules rf MSend) ts) eqn:E; [|reflexivity].
+      rewrite forallb_forall in E. specialize (E t Hin). congruence.
+    - cbn [impl_auto]. unfold send_needs_arg in Hw. destruct (find_rule rules c MSend) as [r|]; [|reflexivity].
+      apply orb_true_iff in Hw. destruct Hw as [Hn|Hb]; [rewrite Hn; reflexivity|].
+      apply existsb_exists in Hb. destruct Hb as [b [Hb1 Hb2]]. destruct b as [[|]| | |]; try discriminate.
+      destruct (forallb _ (r_bounds r)) eqn:E; [|apply andb_false_r].
+      rewrite forallb_forall in E. specialize (E _ Hb1). cbn beta iota in E. congruence.
+  Qed.
+End KeyNeverSent.
+
+Lemma k9_holders_not_send : k9 = true ->
+  forallb (fun c => negb (existsb (fun rf => impl_auto all_rules rf MSend (TCon c (TPay true true))) all_flags)) key_holders = true.
+Proof.
+  unfold k9. intros H. apply andb_true_iff in H. destruct H as [H _].
+  apply forallb_forall. intros c Hc. rewrite forallb_forall in H. specialize (H c Hc).
+  repeat (apply andb_true_iff in H; destruct H as [H _]). exact H.
+Qed.
